@@ -1,3 +1,4 @@
 SPECIFICATION TraceSpec
-CONSTANT Focus = "auth"
+CONSTANTS Focus = "auth"
+ Strict = FALSE
 CHECK_DEADLOCK FALSE
